@@ -1,5 +1,6 @@
 // C17 driver: CRC routines on exactly sized heap blocks at every alignment.
 #include "common/vlog.h"
+#include "common/sstep.h"
 #include <igris/util/crc.h>
 #include <sys/mman.h>
 extern "C" uint8_t igris_crc8_table(const uint8_t *addr, uint8_t len, uint8_t crc_init);
@@ -13,6 +14,15 @@ static unsigned long long call(const std::string &fn, const unsigned char *p, si
     if (fn == "crc32") return igris_crc32(p, (uint32_t)n, (uint32_t)seed);
     fprintf(stderr, "bad fn\n"); exit(3);
 }
+// one CRC call selected by an index (for the single-stepped calls)
+static const char *CRCFN[] = {"dallas", "dallas_table", "crc16", "crc7", "crc32", "strm8"};
+static int crc_index(const std::string &fn) { for (unsigned i = 0; i < 6; ++i) if (fn == CRCFN[i]) return (int)i; return -1; }
+static unsigned long long call_i(int fi, const unsigned char *p, size_t n, unsigned long long seed) {
+    switch (fi) { case 0: return igris_crc8(p, (uint8_t)n, (uint8_t)seed); case 1: return igris_crc8_table(p, (uint8_t)n, (uint8_t)seed); case 2: return igris_crc16(p, (uint16_t)n, (uint16_t)seed);
+        case 3: return igris_mmc_crc7(p, (uint8_t)n); case 4: return igris_crc32(p, (uint32_t)n, (uint32_t)seed);
+        default: { uint8_t c = (uint8_t)seed; for (size_t i = 0; i < n; ++i) igris_strmcrc8(&c, (char)p[i]); return c; } } }
+struct CrcIn { int fi; const unsigned char *p; size_t n; unsigned long long seed, r; bool ran; };
+static void crc_inner(void *q) { CrcIn *x = (CrcIn *)q; x->r = call_i(x->fi, x->p, x->n, x->seed); x->ran = true; }
 static int width(const std::string &fn) { return fn == "crc16" ? 2 : fn == "crc32" ? 4 : 1; }
 // data placed so that it ends exactly at the end of a heap block and starts at address = off (mod 8)
 struct Blk { unsigned char *base, *p; Blk(const std::vector<unsigned char> &d, int off) { size_t n = d.size(); size_t pad = ((off - (int)(n % 8)) % 8 + 8) % 8;
@@ -32,6 +42,25 @@ int main(int argc, char **argv) {
             munmap(base, span);
             unsigned long long nz = len - hd.size() - tl.size();
             Ev e("CrcBig"); e.bytes("seed", sd.data(), sd.size()).str("len", t[2].c_str()).bytes("head", hd.data(), hd.size()).bytes("tail", tl.data(), tl.size()).i("nzh", (long long)(nz >> 16)).i("nzl", (long long)(nz & 0xffff)).le("ret", r, 4); e.end();
+            return; }
+        if (t[0] == "CrcI") {   // CrcI fn seed data fn2 seed2 data2 points : the call fn(data, seed) interrupted at an instruction boundary by a complete call
+            // fn2(data2, seed2) (an interrupt handler that checks a frame while the main program computes a CRC); both logged as ordinary Crc events
+            const std::string &fn = t[1], &fn2 = t[4]; auto sd = blist(t[2]), d = blist(t[3]), sd2 = blist(t[5]), d2 = blist(t[6]); long points = num(t[7]);
+            unsigned long long seed = 0, seed2 = 0; for (size_t i = 0; i < sd.size(); ++i) seed |= (unsigned long long)sd[i] << (8 * i); for (size_t i = 0; i < sd2.size(); ++i) seed2 |= (unsigned long long)sd2[i] << (8 * i);
+            int fi = crc_index(fn), fi2 = crc_index(fn2); if (fi < 0 || fi2 < 0) { fprintf(stderr, "bad CrcI fn\n"); exit(3); }
+            Blk b(d, 0), b2(d2, 3); unsigned long long r = 0; CrcIn in{fi2, b2.p, d2.size(), seed2, 0, false};
+            unsigned keep = g_op_timeout; if (keep) { g_op_timeout = 60; watchdog(true); g_op_timeout = keep; }
+            call_i(fi, b.p, d.size(), seed); crc_inner(&in); in.ran = false;
+            long N = sstep::run(0, [&] { r = call_i(fi, b.p, d.size(), seed); }, crc_inner, &in);
+            long step = N <= points ? 1 : (N + points - 1) / points; bool have = false; unsigned long long pr = 0, pr2 = 0;
+            for (long k = 1; k <= N; k += step) {
+                in.ran = false; in.r = 0; r = 0; sstep::run(k, [&] { r = call_i(fi, b.p, d.size(), seed); }, crc_inner, &in);
+                if (!in.ran) break;
+                if (have && r == pr && in.r == pr2) continue;
+                have = true; pr = r; pr2 = in.r;
+                Ev e("Crc"); e.str("fn", fn.c_str()).bytes("seed", sd.data(), sd.size()).bytes("data", d.data(), d.size()).i("off", 0).i("cut", 0).le("ret", r, width(fn)).le("chunked", r, width(fn)).i("nest", k); e.end();
+                Ev f("Crc"); f.str("fn", fn2.c_str()).bytes("seed", sd2.data(), sd2.size()).bytes("data", d2.data(), d2.size()).i("off", 3).i("cut", 0).le("ret", in.r, width(fn2)).le("chunked", in.r, width(fn2)).i("nest", k).str("role", "interrupting"); f.end();
+            }
             return; }
         if (t[0] == "CrcReuse") {   // CrcReuse fn seed(list LE) dataA dataB align : one buffer; the CRC of its contents A, then the buffer is overwritten in
             // place with B (same length) and the CRC is taken again through the same pointer, length and seed - direct calls in one function,
